@@ -191,11 +191,13 @@ def main(ctx: Ctx) -> int:
         except Exception:   # noqa
             return -1
     nconst = 0
-    for name in ("#CO", "#H2O", "#CH4"):
+    # (charged ice species have table entries of their own -- OH- 1260 K, CN- 1510 K, not the neutrals' values -- and an ice cation has none:
+    #  its lookup is refused, read as -1, until the user supplies a value)
+    for name in ("#CO", "#H2O", "#CH4", "#OH-", "#CN-", "#CO+", "#H2O+"):
         for seq in (["read", ("user", 1300), "read", ("explicit", 855), "read", ("user", 1400), "read"], ["read", "read", ("user", 999), "read", "read"],
                     [("user", 1200), "read", ("user", 1250), "read", ("explicit", 700), "read"],
                     # values with more significant digits than any table entry has, and the constant the generated code gets for them
-                    ["emitted", ("user", 1234.567), "read", "emitted", ("user", 5773.25), "emitted", ("user", 98765.432), "read", "emitted"]):
+                    ["emitted", ("user", 1234.567), "read", "emitted", ("user", 5773.25), "emitted", ("user", 98765.432), "read", "emitted"])[: (4 if name[-1] not in "+-" else 3)]:
             Species.reset()
             chemistrydata.user_binding_energy.clear()
             sp = Species(name)
@@ -216,7 +218,7 @@ def main(ctx: Ctx) -> int:
                     sp.binding_energy = float(op[1])
                     ev.append({"op": "explicit", "value": int(round(op[1] * 1000))})
             t0 = dict(traces[0])
-            t0.update({"tid": len(traces) + 1, "kind": "eb", "ev": ev, "table": int(round(eb12[name[1:]] * 1000)), "line": f"{name}: {seq}", "obs": dict(traces[0]["obs"], expr="")})
+            t0.update({"tid": len(traces) + 1, "kind": "eb", "ev": ev, "table": int(round(eb12[name[1:]] * 1000)) if name[1:] in eb12 else -1, "line": f"{name}: {seq}", "obs": dict(traces[0]["obs"], expr="")})
             traces.append(t0)
     cov["emitted_binding_energy_constants_checked"] = nconst
     # two grain populations in one network, each with its own charged and neutral grains and its own ice: the density each population's
